@@ -1,4 +1,5 @@
 import ThruVerif.Model.Race
+import ThruVerif.Gen.Shapes
 import ThruVerif.Proto.Race
 /-!
 # C09 — Connection racing leaves both peers on the same single connection
@@ -356,5 +357,8 @@ example : ∃ s, Reachable 3 s ∧ s.returned = some 0 ∧ quiescent s ∧ s.pri
     | 1 => decide
     | 2 => decide
     | n + 3 => simp [task, taskL, demo, run, step, init], by decide⟩
+
+/-- the claim is one atomic compare-and-swap (regenerated from the source on this run): the model's `claim` step -/
+theorem C09_source_claim : TV.Gen.Shapes.probe_claim = ["claimed.CompareAndSwap(false, true)"] := by decide
 
 end TV.C09
